@@ -32,6 +32,8 @@ type polling struct {
 
 	shouldClose atomic.Pointer[types.Callable]
 	mu          sync.Mutex
+	// closeMu makes "is a poll waiting / is a close pending" one step for DoClose and onPollRequest
+	closeMu sync.Mutex
 }
 
 // HTTP polling New.
@@ -106,9 +108,23 @@ func (p *polling) onPollRequest(ctx *types.HttpContext) {
 	p.Emit("ready")
 
 	// if we're still writable but had a pending close, trigger an empty send
-	if p.Writable() && p.shouldClose.Load() != nil {
+	p.flushPendingClose()
+}
+
+// flushPendingClose releases the waiting poll with a noop (send appends the close
+// packet) when an orderly close is pending. The poll and the close can arrive at
+// the same time on different goroutines: whichever comes second must find the
+// other, so the test and the claim of the poll are one step.
+func (p *polling) flushPendingClose() {
+	p.closeMu.Lock()
+	trigger := p.Writable() && p.shouldClose.Load() != nil
+	if trigger {
+		p.SetWritable(false)
+	}
+	p.closeMu.Unlock()
+	if trigger {
 		polling_log.Debug("triggering empty send to append close packet")
-		p.Send([]*packet.Packet{
+		go p.send([]*packet.Packet{
 			{
 				Type: packet.NOOP,
 			},
@@ -431,7 +447,12 @@ func (p *polling) DoClose(fn types.Callable) {
 			utils.ClearTimeout(closeTimeoutTimer)
 			onClose()
 		}
+		p.closeMu.Lock()
 		p.shouldClose.Store(&shouldClose)
+		p.closeMu.Unlock()
+		// a poll that arrived after the Writable() test above has already looked for a
+		// pending close and found none
+		p.flushPendingClose()
 	}
 }
 
